@@ -15,7 +15,7 @@ Extraction "footprint_model.ml"
   wrap_score_f32_avx2 wrap_score_f32_avx2_permute wrap_score_f32_avx2_gather wrap_score_u8_avx2
   wrap_score_sse2 wrap_score_generic ext_score
   wrap_argmax_f32_avx2 wrap_max_f32_avx2 wrap_argmax_u8_avx2 wrap_max_u8_avx2 wrap_argmax_sse2 ext_max
-  fp_from_rows fp_ravel fp_fill fp_sample sample_rows ext_dense
+  fp_from_rows from_rows_rows fp_ravel fp_fill fp_sample sample_rows ext_dense
   configure_wrap_model stride row_bytes
   hstep htrace hfinal h0
   fp_encode_into_neon fp_score_f32_neon fp_score_u8_neon wrap_score_f32_neon wrap_score_u8_neon balign_mat16.
